@@ -35,11 +35,11 @@ type RealPlan struct {
 	FSlowUs int    `json:"f_slow_us,omitempty"`
 	// OneP: the case runs with GOMAXPROCS(1), and Par may be <= 0 ("as many as there are processors": one)
 	OneP bool `json:"one_p,omitempty"`
-	// GoexitAt (k > 0): the (first) source's Next ends its goroutine with runtime.Goexit once k-1 items are out;
-	// FGoexitAt (k > 0): f does, for item k-1. The goroutine - one of the library's - unwinds through its
-	// deferred calls only; the consumer still comes to an end, Close returns, every source is closed once.
-	GoexitAt  int `json:"goexit_at,omitempty"`
-	FGoexitAt int `json:"f_goexit_at,omitempty"`
+	// GoexitAt (k > 0): the (first) source's Next ends its goroutine with runtime.Goexit once k-1 items are out.
+	// The goroutine - one of the library's - unwinds through its deferred calls only; the consumer still comes
+	// to an end, Close returns, every source is closed once. (An f that does the same takes its item with it,
+	// and the unchanged MapStream then waits for that item's result for ever: not generated, not judged.)
+	GoexitAt int `json:"goexit_at,omitempty"`
 }
 
 func genReal(t *rapid.T) RealPlan {
@@ -59,9 +59,6 @@ func genReal(t *rapid.T) RealPlan {
 		p.Stop = rapid.IntRange(0, p.N).Draw(t, "stop")
 	}
 	if p.ErrAt < 0 && p.FErrAt < 0 && rapid.IntRange(0, 3).Draw(t, "goexit") == 0 {
-		// (only the source: an f that ends a MapStream worker this way takes its item with it, and the unchanged
-		// library then waits for that item's result for ever once the buffer is full of later ones - FGoexitAt is
-		// kept for replays and experiments, not generated)
 		p.GoexitAt = 1 + rapid.IntRange(0, p.N).Draw(t, "goexitat")
 	}
 	if rapid.IntRange(0, 3).Draw(t, "autopar") == 0 {
@@ -101,9 +98,7 @@ func runReal(p RealPlan) (vk.Outcome, error) {
 		if x == p.FErrAt {
 			return -1, FE
 		}
-		if p.FGoexitAt > 0 && x == p.FGoexitAt-1 {
-			runtime.Goexit()
-		}
+
 		return x, nil
 	}
 	bg := context.Background()
@@ -163,7 +158,7 @@ func runReal(p RealPlan) (vk.Outcome, error) {
 	if r.err != nil && r.err != stream.End && r.err != E && r.err != FE {
 		return out, vk.Violf("wrong-error", "%s: Next returned %v", p.Comb, r.err)
 	}
-	if p.Stop < 0 && p.ErrAt < 0 && p.FErrAt < 0 && p.GoexitAt == 0 && p.FGoexitAt == 0 && (r.err != stream.End || r.n != p.N) {
+	if p.Stop < 0 && p.ErrAt < 0 && p.FErrAt < 0 && p.GoexitAt == 0 && (r.err != stream.End || r.n != p.N) {
 		return out, vk.Violf("wrong-output", "%s over %d items without faults: %d outputs, then %v", p.Comb, p.N, r.n, r.err)
 	}
 	for _, src := range srcs {
@@ -171,8 +166,8 @@ func runReal(p RealPlan) (vk.Outcome, error) {
 			return out, vk.Violf("ownership", "%s (n=%d, source error at %d, f error at %d, consumer stopped after %d outputs with %v): after Close returned: %v", p.Comb, p.N, p.ErrAt, p.FErrAt, r.n, r.err, err)
 		}
 	}
-	out.NonTrivial = p.ErrAt >= 0 || p.FErrAt >= 0 || (p.Stop >= 0 && p.Stop < p.N) || p.GoexitAt > 0 || p.FGoexitAt > 0
-	if p.GoexitAt > 0 || p.FGoexitAt > 0 {
+	out.NonTrivial = p.ErrAt >= 0 || p.FErrAt >= 0 || (p.Stop >= 0 && p.Stop < p.N) || p.GoexitAt > 0
+	if p.GoexitAt > 0 {
 		out.Label("goexit")
 	}
 	out.Label("real:" + p.Comb)
